@@ -391,8 +391,8 @@ namespace sim
       const std::uint8_t grp_stream[] = { OP_SEQ2, OP_SEQ3, OP_SOR2, OP_STAR, OP_PLUS, OP_UNTIL1, OP_UNTIL2, OP_LIST, OP_PAD, OP_RAW, OP_REMATCH, OP_MINUS, OP_AT, OP_NOT_AT, OP_REP_MIN_MAX, OP_IF_THEN_ELSE };
       const std::uint8_t grp_tree[] = { OP_T_SOR_BT, OP_T_SOR_TC, OP_SEQ2, OP_SOR2, OP_STAR, OP_OPT, OP_PLUS, OP_AT, OP_NOT_AT, OP_TC_ANY_RF, OP_TC_RF, OP_MUST, OP_LIST, OP_MINI, OP_IF_THEN_ELSE, OP_UNTIL2 };
 
-      const std::uint8_t atoms_consume[] = { ATOM_UTF16_BE_ANY, ATOM_UTF16_LE_RANGE, ATOM_UTF32_BE_ANY, ATOM_UINT64_ANY, ATOM_ISTR_ABC, ATOM_UNSIGNED, ATOM_SIGNED, ATOM_MAXIMUM, ATOM_RAW0, ATOM_STR_ABC, ATOM_KEYWORD_AB, ATOM_REP_ONE, ATOM_UTF8_ANY, ATOM_UINT16_ANY, ATOM_UINT32_ONE, ATOM_BYTES3, ATOM_LIST_DIGITS, ATOM_NAMED_DIGITS, ATOM_THREE_A, ATOM_IDENTIFIER, ATOM_EOL, ATOM_STR_CRLF, ATOM_DEEP9 };
-      const std::uint8_t atoms_exc[] = { ATOM_DEEP10_BT, ATOM_DEEP9, ATOM_RAISE, ATOM_RAISE_MSG, ATOM_NAMED_AB, ATOM_NAMED_C, ATOM_NAMED_DIGITS, ATOM_APPLY, ATOM_ONE_A, ATOM_ANY, ATOM_STR_AB, ATOM_DEEP7 };
+      const std::uint8_t atoms_consume[] = { ATOM_PRED_OR_UTF8, ATOM_MASK16_ONE, ATOM_MASK32_STRING, ATOM_MASK64_NOT_ONE, ATOM_UINT16_LE_RANGES, ATOM_REP_STRING, ATOM_SEPARATED_SEQ, ATOM_IF_THEN_CHAIN, ATOM_SHEBANG, ATOM_ELLIPSIS, ATOM_UTF8_STRING, ATOM_UTF16_BE_STRING, ATOM_UTF32_LE_NOT_ONE, ATOM_JSON_VALUE, ATOM_URI, ATOM_URI_REFERENCE, ATOM_IPV6, ATOM_REL_JSON_POINTER, ATOM_IRI, ATOM_ABNF_CRLF_WSP, ATOM_HTTP_FIELD, ATOM_HTTP_REQUEST_LINE, ATOM_UTF16_BE_ANY, ATOM_UTF16_LE_RANGE, ATOM_UTF32_BE_ANY, ATOM_UINT64_ANY, ATOM_ISTR_ABC, ATOM_UNSIGNED, ATOM_SIGNED, ATOM_MAXIMUM, ATOM_RAW0, ATOM_STR_ABC, ATOM_KEYWORD_AB, ATOM_REP_ONE, ATOM_UTF8_ANY, ATOM_UINT16_ANY, ATOM_UINT32_ONE, ATOM_BYTES3, ATOM_LIST_DIGITS, ATOM_NAMED_DIGITS, ATOM_THREE_A, ATOM_IDENTIFIER, ATOM_EOL, ATOM_STR_CRLF, ATOM_DEEP9 };
+      const std::uint8_t atoms_exc[] = { ATOM_JSON_VALUE, ATOM_HTTP_REQUEST_LINE, ATOM_DEEP10_BT, ATOM_DEEP9, ATOM_RAISE, ATOM_RAISE_MSG, ATOM_NAMED_AB, ATOM_NAMED_C, ATOM_NAMED_DIGITS, ATOM_APPLY, ATOM_ONE_A, ATOM_ANY, ATOM_STR_AB, ATOM_DEEP7 };
 
       template< std::size_t N >
       bool in_group( const std::uint8_t ( &g )[ N ], int v )
@@ -531,6 +531,49 @@ namespace sim
             case ATOM_DEEP9: return r.chance( 1, 2 ) ? "bcab0" : "c";
             case ATOM_DEEP10_BT: return r.chance( 1, 2 ) ? "bcaa" : ( r.chance( 1, 2 ) ? "a!" : "ca0" );
             case ATOM_LIST_DIGITS: return r.chance( 1, 2 ) ? "1, 22 ,3" : "5";
+            case ATOM_PRED_AND: return r.chance( 1, 2 ) ? "q" : "b";
+            case ATOM_PRED_NOT: return r.chance( 1, 2 ) ? "x" : "7";
+            case ATOM_PRED_OR_UTF8: return r.chance( 1, 3 ) ? "\xc3\xa9" : ( r.chance( 1, 2 ) ? "\xe4\xb8\xad" : ( r.chance( 1, 2 ) ? "\xf0\x9f\x98\x80" : "\xf0\x9f\x98" ) );
+            case ATOM_MASK8_RANGE: return r.chance( 1, 2 ) ? "\xe2" : "b";
+            case ATOM_MASK16_ONE: return r.chance( 1, 2 ) ? "Xa" : "a";
+            case ATOM_MASK32_STRING: return r.chance( 1, 2 ) ? "\x01" "abc" "\x02" "def" : ( r.chance( 1, 2 ) ? "Xabc" "Yde" : "Xabc" );
+            case ATOM_MASK64_NOT_ONE: return r.chance( 1, 2 ) ? "b1234567" : ( r.chance( 1, 2 ) ? "a1234567" : "b123456" );
+            case ATOM_UINT16_LE_RANGES: return r.chance( 1, 2 ) ? "bc" : ( r.chance( 1, 2 ) ? "00" : "b" );
+            case ATOM_REP_STRING: return r.chance( 1, 2 ) ? "abab" : "aba";
+            case ATOM_SEPARATED_SEQ: return r.chance( 1, 2 ) ? "1,a,2" : ( r.chance( 1, 2 ) ? "1,a," : "1,a" );
+            case ATOM_IF_THEN_CHAIN: return r.chance( 1, 3 ) ? "ab" : ( r.chance( 1, 2 ) ? "c7" : ( r.chance( 1, 2 ) ? "z" : "a" ) );
+            case ATOM_SHEBANG: return r.chance( 1, 2 ) ? "#!/bin/sh\n" : ( r.chance( 1, 2 ) ? "#!x" : "#!" );
+            case ATOM_ELLIPSIS: return r.chance( 1, 2 ) ? "..." : "..";
+            case ATOM_UTF8_STRING: return r.chance( 1, 2 ) ? "\xc3\xa9\xe2\x82\xac\xf0\x9f\x98\x80" : ( r.chance( 1, 2 ) ? "\xc3\xa9\xe2\x82\xac\xf0\x9f\x98" : "\xc3\xa9\xe2\x82" );
+            case ATOM_UTF8_NOT_RANGE: return r.chance( 1, 2 ) ? "\xe2\x82\xac" : ( r.chance( 1, 2 ) ? "x" : "\xc3\xa9" );
+            case ATOM_UTF8_RANGES: return r.chance( 1, 3 ) ? "\xce\xb2" : ( r.chance( 1, 2 ) ? "\xf0\x9f\x98\x80" : "k" );
+            case ATOM_UTF16_BE_STRING: return r.chance( 1, 2 ) ? "\x01\x61\xd8\x3d\xde\x01" : "\x01\x61\xd8\x3d\xde";
+            case ATOM_UTF32_LE_NOT_ONE: return r.chance( 1, 2 ) ? "\x62\x01\x01\x01" : "\x62\x01\x01";
+            case ATOM_JSON_VALUE: {
+               static const char* v[] = { "[1,\"a\"]", "{\"k\":[true,null]}", "\"\\u00e9\xc3\xa9\"", "-1.5e3", "[1,", "{\"k\" 1}", "\"\xf0\x9f\x98", "[[[]]]", "tru", "{\"a\":{\"b\":\"c\"}}" };
+               return v[ r.below( 10 ) ];
+            }
+            case ATOM_URI: {
+               static const char* v[] = { "http://a.b/c?d#e", "x:", "ftp://u:p@[::1]:21/", "urn:a:b", "h://1.2.3.4:5", "http://[1:2:3:4:5:6:7:8]", "http://[::ffff:1.2.3.4]/%41", "h://%4", "http://[v1.a]/", "a+b-c.d://h" };
+               return v[ r.below( 10 ) ];
+            }
+            case ATOM_URI_REFERENCE: {
+               static const char* v[] = { "//a/b", "/a/b", "a/b?c", "?q", "#f", "", "../x;y=1", "http://h", "%zz" };
+               return v[ r.below( 9 ) ];
+            }
+            case ATOM_IPV6: {
+               static const char* v[] = { "::", "::1", "1::", "1:2:3:4:5:6:7:8", "1:2:3:4:5:6:1.2.3.4", "1::8", "::ffff:255.255.255.255", "1:2::7:8", "1:2:3:4:5:6:7", "fe80::1:2:3:4:5" };
+               return v[ r.below( 10 ) ];
+            }
+            case ATOM_JSON_POINTER: return r.chance( 1, 2 ) ? "/a~0b/~1/c" : ( r.chance( 1, 2 ) ? "/a~2" : "/" );
+            case ATOM_REL_JSON_POINTER: return r.chance( 1, 3 ) ? "0#" : ( r.chance( 1, 2 ) ? "12/a/b" : ( r.chance( 1, 2 ) ? "1" : "01#" ) );
+            case ATOM_IRI: {
+               static const char* v[] = { "http://\xc3\xa9.b/\xe4\xb8\xad?q=\xee\x80\x80#f", "x:\xc3\xa9", "h://[::1]/\xf0\x90\x80\x80", "h://a/\xf0\x9f\x98", "a:b" };
+               return v[ r.below( 5 ) ];
+            }
+            case ATOM_ABNF_CRLF_WSP: return r.chance( 1, 2 ) ? "\r\n \r\n\t " : ( r.chance( 1, 2 ) ? "\r\n\t" : "\r\n" );
+            case ATOM_HTTP_FIELD: return r.chance( 1, 2 ) ? "Host: a.b \t" : ( r.chance( 1, 2 ) ? "X-Y:v w" : "K:" );
+            case ATOM_HTTP_REQUEST_LINE: return r.chance( 1, 2 ) ? "GET /a?b HTTP/1.1\r\n" : ( r.chance( 1, 2 ) ? "GET / HTTP/1.1" : "OPTIONS * HTTP/1.0\r\n" );
             default: return "";
          }
       }
